@@ -178,7 +178,23 @@ impl<'de> de::Deserializer<'de> for Deserializer {
     deserialize_integer!(deserialize_u32, u32, visit_u32);
     try_deserialize_number!(deserialize_u64);
     try_deserialize_number!(deserialize_u128);
-    deserialize_float!(deserialize_f32, f32, visit_f32);
+    fn deserialize_f32<V>(self, visitor: V) -> Result<V::Value>
+    where
+        V: Visitor<'de>,
+    {
+        match self.0 {
+            KValue::Number(n) => {
+                let f = f32::from(n);
+                // A finite number beyond the f32 range would silently become an infinity
+                if f.is_infinite() && f64::from(n).is_finite() {
+                    Err(Error::OutOfRangeNumber(n, "f32"))
+                } else {
+                    visitor.visit_f32(f)
+                }
+            }
+            other => unsupported_error("number", &other),
+        }
+    }
     deserialize_float!(deserialize_f64, f64, visit_f64);
 
     fn deserialize_char<V>(self, visitor: V) -> Result<V::Value>
